@@ -37,6 +37,10 @@ pub enum Case {
     /// route 0 ShapeReader::new, 1 with_shx, 2 with_shx whose index lists every record twice,
     /// 3 the complete Reader (index + dbf)
     Mixed { requested: Ty, types: Vec<Ty>, route: u8 },
+    /// a 3-record file of type `ty` located by a hand-made index: physical order `perm`, fillers or not, and the
+    /// length field of every index entry replaced (`lie`: 0 as it is, 1 -> 2 words, 2 -> 0, 3 -> +1, 4 -> -1,
+    /// 5 -> i32::MAX); typed against generic on every route that takes an index, in memory and by path
+    Indexed { ty: Ty, perm: Vec<usize>, fillers: bool, lie: u8 },
 }
 
 fn tyj(t: Ty) -> Value {
@@ -55,6 +59,7 @@ impl Case {
             }
             Case::Value { ty, idx } => json!({"kind": "value", "ty": tyj(*ty), "idx": idx}),
             Case::Bulk { ty, wrong, len, pos } => json!({"kind": "bulk", "ty": tyj(*ty), "wrong": tyj(*wrong), "len": len, "pos": pos}),
+            Case::Indexed { ty, perm, fillers, lie } => json!({"kind": "indexed", "ty": tyj(*ty), "perm": perm, "fillers": fillers, "lie": lie}),
             Case::Mixed { requested, types, route } => json!({"kind": "mixed", "requested": tyj(*requested), "types": types.iter().map(|t| t.name()).collect::<Vec<_>>(), "route": route}),
         }
     }
@@ -81,6 +86,12 @@ impl Case {
                 requested: tyf(v.get("requested"))?,
                 types: v.get("types")?.as_array()?.iter().map(|x| Ty::from_name(x.as_str()?)).collect::<Option<Vec<_>>>()?,
                 route: v.get("route")?.as_u64()? as u8,
+            }),
+            "indexed" => Some(Case::Indexed {
+                ty: tyf(v.get("ty"))?,
+                perm: v.get("perm")?.as_array()?.iter().map(|x| x.as_u64().map(|u| u as usize)).collect::<Option<Vec<_>>>()?,
+                fillers: v.get("fillers")?.as_bool()?,
+                lie: v.get("lie")?.as_u64()? as u8,
             }),
             "bulk" => Some(Case::Bulk {
                 ty: tyf(v.get("ty"))?,
@@ -323,6 +334,93 @@ pub fn run(case: &Case) -> Vec<(String, String)> {
                 }
             }
         }
+        Case::Indexed { ty, perm, fillers, lie } => {
+            let c14case = super::c14::Case { ty: *ty, n: 3, perm: perm.clone(), gaps: if *fillers { vec![2, 0, 4, 2] } else { vec![0; 4] }, fill_byte: 0 };
+            let (shp, mut shx, _) = super::c14::build(&c14case);
+            for i in 0..3 {
+                let o = 100 + 8 * i + 4;
+                let orig = i32::from_be_bytes(shx[o..o + 4].try_into().unwrap());
+                let v = match lie {
+                    0 => orig,
+                    1 => 2,
+                    2 => 0,
+                    3 => orig + 1,
+                    4 => orig - 1,
+                    _ => i32::MAX,
+                };
+                shx[o..o + 4].copy_from_slice(&v.to_be_bytes());
+            }
+            // one result per route: (name, generic then converted, typed)
+            type R = Result<Vec<MRead>, String>;
+            let conv = |g: Result<Vec<Shape>, String>| -> R {
+                g.and_then(|v| with_ty!(*ty, S => shapefile::convert_shapes_to_vec_of::<S>(v).map(|v| v.into_iter().map(|s| from_lib(&Shape::from(s))).collect()).map_err(|e| err_kind(&e)), unreachable!()))
+            };
+            let open = || ShapeReader::with_shx(Dev::quiet(shp.clone()), Dev::quiet(shx.clone()));
+            let mut routes: Vec<(String, R, R)> = vec![];
+            routes.push((
+                "with_shx: read / read_as".into(),
+                conv(open().and_then(|r| r.read()).map_err(|e| err_kind(&e))),
+                with_ty!(*ty, S => open().and_then(|r| r.read_as::<S>()).map(|v| v.into_iter().map(|s| from_lib(&Shape::from(s))).collect()).map_err(|e| err_kind(&e)), unreachable!()),
+            ));
+            routes.push((
+                "with_shx: iter_shapes / iter_shapes_as".into(),
+                conv(open().map_err(|e| err_kind(&e)).and_then(|mut r| r.iter_shapes().take(8).collect::<Result<Vec<_>, _>>().map_err(|e| err_kind(&e)))),
+                with_ty!(*ty, S => open().map_err(|e| err_kind(&e)).and_then(|mut r| r.iter_shapes_as::<S>().take(8).map(|x| x.map(|s| from_lib(&Shape::from(s)))).collect::<Result<Vec<_>, _>>().map_err(|e| err_kind(&e))), unreachable!()),
+            ));
+            for i in 0..4usize {
+                let one = |x: Option<Result<Shape, shapefile::Error>>| -> Result<Vec<Shape>, String> {
+                    match x {
+                        None => Ok(vec![]),
+                        Some(r) => r.map(|s| vec![s]).map_err(|e| err_kind(&e)),
+                    }
+                };
+                routes.push((
+                    format!("with_shx: read_nth_shape({i}) / read_nth_shape_as({i})"),
+                    conv(open().map_err(|e| err_kind(&e)).and_then(|mut r| one(r.read_nth_shape(i)))),
+                    with_ty!(*ty, S => open().map_err(|e| err_kind(&e)).and_then(|mut r| match r.read_nth_shape_as::<S>(i) {
+                        None => Ok(vec![]),
+                        Some(x) => x.map(|s| vec![from_lib(&Shape::from(s))]).map_err(|e| err_kind(&e)),
+                    }), unreachable!()),
+                ));
+            }
+            // by path
+            {
+                let dir = super::c01_c02::scratch_dir();
+                let tid: String = format!("{:?}", std::thread::current().id()).chars().filter(|c| c.is_ascii_digit()).collect();
+                let path = dir.join(format!("c06-{}.shp", tid));
+                std::fs::write(&path, &shp).expect("scratch write");
+                std::fs::write(path.with_extension("shx"), &shx).expect("scratch write");
+                routes.push((
+                    "by path: read_shapes / read_shapes_as".into(),
+                    conv(shapefile::read_shapes(&path).map_err(|e| err_kind(&e))),
+                    with_ty!(*ty, S => shapefile::read_shapes_as::<_, S>(&path).map(|v| v.into_iter().map(|s| from_lib(&Shape::from(s))).collect()).map_err(|e| err_kind(&e)), unreachable!()),
+                ));
+                routes.push((
+                    "from_path: read / read_as".into(),
+                    conv(ShapeReader::from_path(&path).and_then(|r| r.read()).map_err(|e| err_kind(&e))),
+                    with_ty!(*ty, S => ShapeReader::from_path(&path).and_then(|r| r.read_as::<S>()).map(|v| v.into_iter().map(|s| from_lib(&Shape::from(s))).collect()).map_err(|e| err_kind(&e)), unreachable!()),
+                ));
+                let _ = std::fs::remove_file(&path);
+                let _ = std::fs::remove_file(path.with_extension("shx"));
+            }
+            for (name, generic, typed) in routes {
+                let same = match (&generic, &typed) {
+                    (Ok(a), Ok(b)) => a.len() == b.len() && a.iter().zip(b).all(|(x, y)| super::c04::mread_eq(x, y)),
+                    (Err(a), Err(b)) => a == b,
+                    _ => false,
+                };
+                if !same {
+                    let show = |r: &R| match r {
+                        Ok(v) => format!("Ok({} shapes: {:?})", v.len(), v.iter().map(|m| m.shape.parts.iter().map(|p| p.pts.len()).sum::<usize>()).collect::<Vec<_>>()),
+                        Err(e) => format!("Err({})", e),
+                    };
+                    out.push((
+                        format!("indexed-file:{}:typed-vs-generic", name.split(':').next().unwrap_or("")),
+                        format!("{}: generic then converted = {}, typed = {} (vertex counts shown)", name, show(&generic), show(&typed)),
+                    ));
+                }
+            }
+        }
         Case::Bulk { ty, wrong, len, pos } => {
             let good = to_lib(&reduced_set(*ty)[0]);
             let bad = if *wrong == Ty::Null { Shape::NullShape } else { to_lib(&reduced_set(*wrong)[0]) };
@@ -452,6 +550,9 @@ fn selftest() -> (u64, u64) {
 
 pub fn check(tier: Tier) -> i32 {
     let started = Instant::now();
+    if !super::c01_c02::scratch_usable() {
+        return 2;
+    }
     let mut cases = vec![];
     for actual in ALL14 {
         let k = if actual == Ty::Null { 1 } else { reduced_set(actual).len().min(3) };
@@ -496,6 +597,16 @@ pub fn check(tier: Tier) -> i32 {
             }
         }
     }
+    // files located by a hand-made index (permuted, with fillers, lying length fields): typed against generic
+    for ty in ALL13 {
+        for perm in [vec![0usize, 1, 2], vec![2, 0, 1], vec![1, 2, 0], vec![2, 1, 0]] {
+            for fillers in [false, true] {
+                for lie in 0..6u8 {
+                    cases.push(Case::Indexed { ty, perm: perm.clone(), fillers, lie });
+                }
+            }
+        }
+    }
     for ty in ALL13 {
         for idx in 0..value_set(ty).len() {
             cases.push(Case::Value { ty, idx });
@@ -537,13 +648,14 @@ pub fn check(tier: Tier) -> i32 {
         }
     });
     let st = selftest();
+    super::c01_c02::cleanup_scratch();
     finish(
         RunInfo {
             prop: "C06",
             tier,
             level: "model_checking",
             engine: "E2 complete type matrix on the real reader / conversions; files by the library writer (13 types) and by RefCodec (null and mixed-type files)",
-            rule: "all 13 x 14 ordered (requested S, actual T) pairs x files of 1-2 (thorough 3) records over 3 structures, plus files whose last record has any other of the 14 types; every shape value of the C01 quick structure set for the identity / conversion clauses against all 13 target types; bulk conversion with the wrong element at every position of vectors of length 1-3 for all 13 x 13 pairs; hand-encoded 3-record files over {S, another type, null} for every S through ShapeReader::new / with_shx / with_shx with every index entry doubled / the complete Reader; non-trivial = every case",
+            rule: "all 13 x 14 ordered (requested S, actual T) pairs x files of 1-2 (thorough 3) records over 3 structures, plus files whose last record has any other of the 14 types; every shape value of the C01 quick structure set for the identity / conversion clauses against all 13 target types; bulk conversion with the wrong element at every position of vectors of length 1-3 for all 13 x 13 pairs; hand-encoded 3-record files over {S, another type, null} for every S through ShapeReader::new / with_shx / with_shx with every index entry doubled / the complete Reader; 3-record files of every type located by a hand-made index (4 physical orders x fillers or not x the entries' length fields as they are, 2, 0, +1, -1, i32::MAX): typed against generic-then-converted for read, iteration, random access at every position (in memory) and read_shapes / from_path (on disk); non-trivial = every case",
             bounds: json!({"matrix": "13x14 complete", "cases": cases.len()}),
             exhaustive: true,
             assumptions: vec!["type names in errors are compared through their integer codes; Display names are C19's".into()],
